@@ -19,6 +19,7 @@ import (
 	"time"
 
 	"go.nanomsg.org/mangos/v3"
+	"go.nanomsg.org/mangos/v3/internal/verifyield"
 	"go.nanomsg.org/mangos/v3/transport"
 )
 
@@ -56,6 +57,7 @@ func (l *listener) serve() {
 		if tp, err := l.l.Accept(); err == mangos.ErrClosed {
 			return
 		} else if err == nil {
+			verifyield.Point("core.serve.afterAccept")
 			l.s.addPipe(tp, nil, l)
 		} else {
 			// Debounce a little bit, to avoid thrashing the CPU.
